@@ -10,6 +10,7 @@ RULE = ('random DFAs / NFAs / PDAs / TMs (1-4 states, names from \\w+ incl. digi
         'no initial state, duplicate declaration, incomplete transition, malformed label, non-deterministic or non-total DFA, duplicate TM transition). Observed: parse_dfa / parse_nfa / parse_pda / parse_tm (object or exception). '
         'Relation: the model parser returns the same automaton (all fields) or rejects exactly when the implementation raises; a faithful layout must give back the rendered automaton; every returned object satisfies the class invariant. '
         'Non-trivial = the description has >= 2 transitions; distinct by text.')
+RULE += ' Added after the seeded rounds: Turing machines whose halting states have the default names accept / reject, rendered with the optional declarations omitted.'
 CODES = {10: 'parse_dfa differs from the model parser (object or accept/reject verdict)', 11: 'parse_dfa of a faithful layout did not return the described DFA', 12: 'model DFA violates the class invariant (machinery)',
          20: 'parse_nfa differs from the model parser', 21: 'parse_nfa of a faithful layout did not return the described NFA', 22: 'model NFA violates the class invariant (machinery)',
          30: 'parse_pda differs from the model parser', 31: 'parse_pda of a faithful layout did not return the described PDA', 32: 'model PDA violates the class invariant (machinery)',
